@@ -20,6 +20,7 @@ import hashlib
 import json
 import os
 import pickle
+import re
 
 from verif.core.runner import HarnessError
 
@@ -79,7 +80,8 @@ ASSUMPTIONS = [
     '_flowir, the _component_dictionary view of it and _cache; dict insertion order and the order of the component '
     'list are deliberately ignored (the latter depends on string hashing for a replicated configuration)',
     'fresh objects re-use one FlowIRExperimentConfiguration wrapper per process whose _concrete is replaced by '
-    'FlowIRConcrete(description produced by the real constructor); the equivalence is verified at start-up',
+    'FlowIRConcrete(description produced by the real constructor) plus the cached queries needed to reproduce the '
+    'cache entries the constructor leaves behind; the equivalence (same canonical state) is verified at start-up',
     'failing observations are grouped by class (sig); two shortest cases per class are reported, the rest counted',
     'two configurations are equal when they compare == and have the same typed canonical text (an int, the float '
     'and the bool that compare equal to it are different values: they interpolate and serialise differently)',
@@ -368,19 +370,39 @@ def _shell(spec):
     if not isinstance(conc, FlowIRConcrete):
         raise HarnessError('could not build the initial configuration for %s' % spec['name'])
     key0, _, raw0 = state_key(conc)
+    # the constructor may leave entries in the cache (it resolves components while it checks the workflow): a fresh
+    # object is brought to the same state by the same cached queries
+    warm = []
+    for label in cache_labels(conc):
+        mt = re.match(r'^component:(.*):stage(\d+):(.*)$', label)
+        if mt is None:
+            raise HarnessError('unexpected cache label %r after the constructor' % label)
+        warm.append((mt.group(1), (int(mt.group(2)), mt.group(3))))
     fresh = FlowIRConcrete(copy.deepcopy(raw0), spec['active'], {})
+    _warm_up(fresh, warm)
     if state_key(fresh)[0] != key0 or fresh.active_platform != conc.active_platform or conc._documents != {}:
-        raise HarnessError('a fresh FlowIRConcrete built from the constructor\'s description is not equivalent to the '
-                           'object the FlowIRExperimentConfiguration constructor holds (%s)' % spec['name'])
-    _SHELLS[spec['name']] = (conf, raw0)
+        raise HarnessError('a fresh FlowIRConcrete built from the constructor\'s description (cache warmed with %r) is '
+                           'not equivalent to the object the FlowIRExperimentConfiguration constructor holds (%s)'
+                           % (warm, spec['name']))
+    _SHELLS[spec['name']] = (conf, raw0, warm)
     _SHELL_DIGEST[spec['name']] = digest(canon_obj(raw0))
-    return conf, raw0
+    return conf, raw0, warm
+
+
+def _warm_up(conc, warm):
+    for platform, cid in warm:
+        try:
+            conc.get_component_configuration(cid, include_default=True, platform=platform)
+        except Exception as e:
+            raise HarnessError('cannot reproduce the cache entry the constructor left for %r on %s: %r' % (cid, platform, e))
 
 
 def fresh(spec):
     from experiment.model.frontends.flowir import FlowIRConcrete
-    conf, raw0 = _shell(spec)
+    conf, raw0, warm = _shell(spec)
     conf._concrete = FlowIRConcrete(raw0, spec['active'], {})   # the constructor deep-copies its argument
+    if warm:
+        _warm_up(conf._concrete, warm)
     return conf
 
 
@@ -699,7 +721,7 @@ _SEEN = set()
 
 
 def _check_shells_untouched():
-    for name, (conf, raw0) in _SHELLS.items():
+    for name, (conf, raw0, _) in _SHELLS.items():
         if digest(canon_obj(raw0)) != _SHELL_DIGEST[name]:
             raise HarnessError('the initial description of %s was modified during the search' % name)
 
